@@ -32,6 +32,11 @@ class CallErr(Exception):
     pass
 
 
+# (No falsy exception objects here, unlike engines/sc.py and engines/threads_to.py: portal calls are answered through
+# concurrent.futures.Future, whose own result() tests `if self._exception:` - CPython loses such an exception before
+# anyio is involved.)
+
+
 def gen_case(seed, tier, prop="C15"):
     rng = random.Random(seed)
     big = tier == "thorough"
